@@ -22,6 +22,7 @@ SMT_FAIL = (
     ('unable to prove assertion safety condition', 'assert'),
     ('assert_by_compute', 'assert'),
     ('recommendation not met', 'recommends'),
+    ('requires not satisfied', 'assert'),
     ('loop invariant', 'invariant'),
     ('cannot show invariant', 'invariant'),
     ('postcondition', 'postcondition'),
